@@ -24,10 +24,12 @@ def include_alignment(ck, facts, tier):
 def include_panic_guards(ck, facts, tier):
     """C20's reviewed site table justifies some panic edges by guards that other properties' rules decide (the reason column cites them):
     csolve's two length guards (R15.2), add_months' roll rewriting / day capping / month carry (R08.2, R08.3, R08.5), aligned array arithmetic
-    (R03.1, R03.3, R03.5) and the FX constructor's refusals and index typing (R09.1, R09.2). Removing such a guard leaves the panic edge where it
+    (R03.1, R03.3, R03.5), the FX constructor's refusals and index typing (R09.1, R09.2), lag / add_days sign branches (R05.4, R05.5), the named-calendar
+    parser's part handling (R06.3) and the FX update's refusal and slot selection (R10.4, R10.6). Removing such a guard leaves the panic edge where it
     was — the site inventory cannot see it — so C20 includes exactly those rules. R11.4 (a curve's nodes are sorted by every constructor and by the loader)
     is the shape invariant of CurveDF that "loading from JSON text returns a value satisfying its type's shape invariants" quantifies over."""
-    from rules import c15, c08, c03, c09, c11
-    for mod, only in ((c15, {"R15.2"}), (c08, {"R08.2", "R08.3", "R08.5"}), (c03, {"R03.1", "R03.3", "R03.5"}), (c09, {"R09.1", "R09.2"}), (c11, {"R11.4"})):
+    from rules import c15, c08, c03, c09, c11, c05, c06, c10
+    for mod, only in ((c15, {"R15.2"}), (c08, {"R08.2", "R08.3", "R08.5"}), (c03, {"R03.1", "R03.3", "R03.5"}), (c09, {"R09.1", "R09.2"}), (c11, {"R11.4"}),
+                      (c05, {"R05.4", "R05.5"}), (c06, {"R06.3"}), (c10, {"R10.4", "R10.6"})):
         with ck.restrict(only):
             _quiet(ck, lambda: mod.run(ck, facts, tier))
